@@ -102,8 +102,14 @@ impl World {
   /// mainnet mock node (mockcore's `simulaterawtransaction` only recognises mainnet
   /// addresses), `--integration-test` (inscriptions and runes active from height 0)
   pub fn new(scratch_root: &Path, flags: Flags) -> World {
+    Self::new_on(scratch_root, flags, "mainnet")
+  }
+
+  /// `chain` = "mainnet" | "regtest" (etchings through the wallet need regtest: the wallet
+  /// compares the reveal height with the chain's rune activation height)
+  pub fn new_on(scratch_root: &Path, flags: Flags, chain: &'static str) -> World {
     let scratch = tempfile::Builder::new().prefix("wx2").tempdir_in(scratch_root).unwrap();
-    let node = Node::new("mainnet", scratch.path());
+    let node = Node::new(chain, scratch.path());
     let extra = vec!["--integration-test".to_string()];
     let ix = ixlib::env::open(&node, scratch.path(), flags, &extra, false);
     let settings = ixlib::env::settings(&node, ix.dir.path(), flags, &extra);
@@ -136,6 +142,7 @@ impl World {
       "--datadir".into(),
       self.wallet_dir.display().to_string(),
       "--integration-test".into(),
+      format!("--chain={}", self.node.chain),
     ];
     args.extend(tail.iter().cloned());
     self.commands += 1;
@@ -189,6 +196,16 @@ impl World {
       UpdateOutcome::Err(e) => panic!("index update failed: {e}"),
       UpdateOutcome::Panic(e) => panic!("index update panicked: {e}"),
       UpdateOutcome::Hang => panic!("index update hung"),
+    }
+  }
+
+  pub fn network(&self) -> bitcoin::Network {
+    match self.node.chain {
+      "regtest" => bitcoin::Network::Regtest,
+      "signet" => bitcoin::Network::Signet,
+      "testnet" => bitcoin::Network::Testnet,
+      "testnet4" => bitcoin::Network::Testnet4,
+      _ => bitcoin::Network::Bitcoin,
     }
   }
 
